@@ -545,14 +545,16 @@ class AutoImport:
             self.connection.commit()
 
     def _changed(self, resource):
-        if not resource.is_folder():
+        if self.project.pycore.is_python_file(resource):
             self.update_resource(resource)
 
     def _moved(self, resource: Resource, newresource: Resource):
         if not resource.is_folder():
             modname = self._resource_to_module(resource).modname
             self._del_if_exist(modname)
-            self.update_resource(newresource)
+            # the new name may not be a module any more (e.g. `mod.py~`)
+            if self.project.pycore.is_python_file(newresource):
+                self.update_resource(newresource)
 
     def _del_if_exist(self, module_name, commit: bool = True):
         self._execute(models.Name.delete_by_module_name, (module_name,))
